@@ -908,7 +908,7 @@ func litInherited(p *Prog, fi *FuncInfo, lit *ast.FuncLit, depth int) map[*types
 		// the body the defer statement belongs to
 		var body *ast.BlockStmt = fi.Decl.Body
 		ast.Inspect(fi.Decl.Body, func(x ast.Node) bool {
-			if fl, ok := x.(*ast.FuncLit); ok && posIn(fl.Body, d.Pos()) {
+			if fl, ok := x.(*ast.FuncLit); ok && within(fl.Body, d) {
 				body = fl.Body
 			}
 			return true
